@@ -223,7 +223,9 @@ static ASMJIT_FAVOR_SIZE Error validate(InstDB::Mode mode, const BaseInst& inst,
     }
 
     if (Support::test(options, kXAcqXRel)) {
-      if (ASMJIT_UNLIKELY(!Support::test(options, InstOptions::kX86_Lock) || (options & kXAcqXRel) == kXAcqXRel)) {
+      // XACQUIRE and XRELEASE require LOCK prefix, unless the instruction is not lockable (XRELEASE MOV, XACQUIRE XCHG).
+      bool lock_required = Support::test(inst_flags, InstDB::InstFlags::kLock);
+      if (ASMJIT_UNLIKELY((lock_required && !Support::test(options, InstOptions::kX86_Lock)) || (options & kXAcqXRel) == kXAcqXRel)) {
         return make_error(Error::kInvalidPrefixCombination);
       }
 
